@@ -89,7 +89,10 @@ def scorer_family(fam=('love', 'bird', 'song')):
     for k, w in enumerate(fam):
         out += [w] * (8 - k)
     a, b, c = fam
-    return out + [a + b + c + '1', b + c + '7391', a + b + c, b.capitalize() + c.capitalize(), a + b + '2', b + c]
+    # ... and compounds that do not start their section (a digit or symbol glued in front): the masks of the second and third word
+    # are slices of the run's mask taken at offsets relative to the run, not to the section
+    return out + [a + b + c + '1', b + c + '7391', a + b + c, b.capitalize() + c.capitalize(), a + b + '2', b + c,
+                  '1' + a + b, '7' + a.capitalize() + b.capitalize(), '!!' + b + c + '3', '42' + a + b.upper() + c]
 
 
 def gen_list(rng, n=None, tame=True, allow_ew=True, dup_rate=0.4, family=None):
